@@ -30,7 +30,7 @@ PROBES = ["csscombine_path", "import_with_media_wrapped", "import_kept_unavailab
 
 HOST = "http://h"
 DIRS = ["/css/", "/css/sub/", "/css/sub/deep/", "/other/", "/"]
-URL_FORMS = ["img/{n}.png", "{n}.png", "../{n}.png", "../img/{n}.gif", "/abs/{n}.png", "http://cdn.example/{n}.png", "//cdn.example/{n}.png", "{n}.png?v=1", "i/{n}.svg#frag", "{n}.png?a=b&c=d#top", "./{n}.png", "../../up/{n}.png", "#blur{n}", "?v={n}", "#{n}", "{n}.svg#a?b"]
+URL_FORMS = ["img/{n}.png", "{n}.png", "../{n}.png", "../img/{n}.gif", "/abs/{n}.png", "http://cdn.example/{n}.png", "//cdn.example/{n}.png", "{n}.png?v=1", "i/{n}.svg#frag", "{n}.png?a=b&c=d#top", "./{n}.png", "../../up/{n}.png", "#blur{n}", "?v={n}", "#{n}", "{n}.svg#a?b", "img{n}/", "a%20{n}.png", "{n}.png;v=1", "sub/../{n}.png", "{n}%25.png"]
 EDGE_MEDIA = ["all", "all", None, "print", "screen, tv", "print"]
 
 
@@ -111,7 +111,7 @@ def render(sheet):
         elif k == "unknown":
             out.append(it[1])
         elif k == "style":
-            decl = "; ".join([f"background: url({u})" if i == 0 else f"list-style-image: url('{u}')" for i, u in enumerate(it[2])] or ["left: 0"])
+            decl = "; ".join([f"background: url({u})" if i == 0 else (f"list-style-image: url('{u}')" if len(u) % 2 else f"cursor: image-set(url('{u}') 1x), auto") for i, u in enumerate(it[2])] or ["left: 0"])
             out.append(f"{it[1]} {{ {decl} }}")
         elif k == "fontface":
             out.append(f"@font-face {{ font-family: {it[1]}; src: url({it[2][0]}) }}")
@@ -242,7 +242,15 @@ class World:
         kept, leaves = [], []
 
         def uris(style):
-            return tuple(urllib.parse.urljoin(base, v.uri) for p in style.getProperties(all=True) for v in p.propertyValue if v.type == "URI")
+            # (own walk, also into functions such as image-set())
+            def walk(values):
+                for v in values:
+                    if getattr(v, "type", None) == "URI":
+                        yield v.uri
+                    elif hasattr(v, "seq") and getattr(v, "type", None) in ("FUNCTION", "VARIABLE", "CALC"):
+                        yield from walk(i.value for i in v.seq)
+
+            return tuple(urllib.parse.urljoin(base, u) for p in style.getProperties(all=True) for u in walk(p.propertyValue))
 
         def walk(rules, ctx):
             for r in rules:
